@@ -143,6 +143,12 @@ func AbstractBuffers() {}
 // every input anybody has found; the engine otherwise treats them as arbitrary).
 func HashInjective() {}
 
+// SplitConstDivision(n): from here on the engine decides a signed division (or
+// remainder) of a symbolic value by a positive constant by forking on the quotient
+// in (-n, n) instead of handing the solver a 64-bit divider; a dividend outside
+// those cases keeps the ordinary division term.  No effect natively.
+func SplitConstDivision(n int) {}
+
 // ---- UDP connection: under the engine a model (datagram log, send faults at
 // the harness's request); natively a real loop-back socket pair.
 
